@@ -351,7 +351,7 @@ def main(tier):
     # through, inside frames with a finally, depth 2 and 3): all of them go through the CPython-witness stage below (all_arms_stage),
     # a sample of them also through the model ties with the modules above
     aa = pygen.all_arms_bodies(rng, 20000 if thorough else 1500)
-    mods += pygen.modules_from_bodies([b for _l, b in rng.sample(aa[0] + aa[1], 600 if thorough else 120)])
+    mods += pygen.modules_from_bodies([b for _l, b in rng.sample(aa[0] + aa[1], 600 if thorough else 80)])
     d = lib.fresh_dir("c01")
     cc.write_modules(mods, d)
     oracles = cc.gen_oracles(rng, n_orc)
